@@ -1,10 +1,10 @@
-\* all histories over mapA (u64 -> u64) and mapB ((u64, u64) -> 24-byte struct), 2 keys x 2 values
+\* StorageBytes and StorageString at once, lengths 0, 33
 CONSTANT UnitWord = 0
-CONSTANT Active = {"mapA", "mapB"}
+CONSTANT Active = {"bytesA", "strA"}
 CONSTANT Vals = {1, 2}
 CONSTANT Keys = {1, 2}
 CONSTANT MaxLen = 3
-CONSTANT SliceLens = {0, 1}
+CONSTANT SliceLens = {0, 33}
 CONSTANT VecArgs = {0, 1, 21}
 SPECIFICATION Spec
 INVARIANT Refines
